@@ -20,6 +20,14 @@ Theorem C06_all_released_once_maps_are_gone : forall c ts rs w',
   0 < cR c -> ok_run c world0 ts rs w' -> w_maps w' = ∅ -> wdks w' ++ keys_out ts rs ≡ₚ keys_in c world0 ts.
 Proof. exact T_C06_all_released. Qed.
 
+(* exactly once, spelled out: when the key objects given are pairwise distinct (and distinct from
+   those already around), no key object is dropped twice, none is both dropped and handed back,
+   none is both still stored and dropped or handed back *)
+Theorem C06_never_dropped_twice_nor_dropped_and_handed_back : forall c w ts rs w',
+  0 < cR c -> WInv c w -> ok_run c w ts rs w' ->
+  NoDup (keys_in c w ts ++ wdks w ++ wheld w) -> NoDup (wdks w' ++ wheld w' ++ keys_out ts rs).
+Proof. exact T_C06_never_twice. Qed.
+
 (* what goes in: the key objects passed to insert/extend/from_iter/par_extend, and the copies that
    clone/clone_from make of the source's key objects; without clones it is a function of the calls *)
 Theorem C06_keys_in_static : forall c w ts rs w',
@@ -193,6 +201,7 @@ Proof. exact T_C06_lite_reachable. Qed.
 
 Print Assumptions C06_history_conserves_keys.
 Print Assumptions C06_all_released_once_maps_are_gone.
+Print Assumptions C06_never_dropped_twice_nor_dropped_and_handed_back.
 Print Assumptions C06_keys_in_static.
 Print Assumptions C06_law_covers_every_operation.
 Print Assumptions C06_entry_step_conserves.
